@@ -43,16 +43,16 @@ impl Path {
             };
         }
 
-        let mut cs = cs.unwrap().to_string();
+        let mut cs = cs.unwrap();
 
         // When components start with ".", it indicates a relative path, e.g.
         // .^.^.hello.5
         // is equivalent to file system style path:
         // ../../hello/5
 
-        if cs.starts_with('.') {
+        if let Some(rest) = cs.strip_prefix('.') {
             is_relative = true;
-            cs = cs[1..].to_string();
+            cs = rest;
         } else {
             is_relative = false;
         }
@@ -69,13 +69,13 @@ impl Path {
             }
         }
 
-        let cs_cell = OnceCell::new();
-        let _ = cs_cell.set(cs);
-
+        // The text form is rebuilt from the components on demand (see
+        // get_components_string): caching the input here would drop the
+        // leading dot of relative paths and keep non-canonical spellings.
         Path {
             components,
             is_relative,
-            components_string: cs_cell,
+            ..Default::default()
         }
     }
 
